@@ -12,6 +12,8 @@ import (
 	"pgregory.net/rapid"
 
 	"github.com/osmosis-labs/osmosis/osmomath"
+	clmodel "github.com/osmosis-labs/osmosis/v31/x/concentrated-liquidity/model"
+	cltypes "github.com/osmosis-labs/osmosis/v31/x/concentrated-liquidity/types"
 	"github.com/osmosis-labs/osmosis/v31/x/gamm/pool-models/balancer"
 	pmtypes "github.com/osmosis-labs/osmosis/v31/x/poolmanager/types"
 	twaptypes "github.com/osmosis-labs/osmosis/v31/x/twap/types"
@@ -23,17 +25,38 @@ import (
 
 func TestMain(m *testing.M) { drv.Main(m) }
 
-const rule = "state machine on the real application: 1-2 balancer pools (2 assets, and 3 assets whose denoms share prefixes aaa/bbb/bbb2), blocks with millisecond-aligned irregular spacing (1 ms .. days), price-moving swaps / joins / exits in some blocks and idle blocks, the twap module's EndBlock after every block (transient changed-pool set cleared as a commit would), pruning passes (twap epoch hook + EndBlock batches run to completion) and queries: every ordered pair of a pool, start/end on, between, before and after record times, ...ToNow variants; oracle: the harness records the end-of-block spot price it obtains itself from the pool manager after every block; arithmetic TWAP == trunc18(sum p_i dt_i / dt) exactly; geometric TWAP == 2^(sum log2(p_i) dt_i / dt) within relative 2e-7 (the module rounds the result to 8 significant figures and derives one quote direction from the reciprocal of the other's 8-significant-figure spot prices); both within [min,max] of the prices in force; the two geometric quote directions multiply to 1 within 4e-7; a start before the first record fails cleanly; answers for intervals inside the retention window are identical before and after a complete pruning pass; non-trivial = interval spans >= 2 records with different prices and does not start on a record; distinct by history+query hash"
+const rule = "state machine on the real application: 1-2 balancer pools (2 assets, and 3 assets whose denoms share prefixes aaa/bbb/bbb2) and optionally one concentrated pool that is created empty or funded, drained (every position withdrawn: no spot price) and refilled, blocks with millisecond-aligned irregular spacing (1 ms .. days), price-moving swaps / joins / exits in some blocks and idle blocks, the twap module's EndBlock after every block (transient changed-pool set cleared as a commit would), pruning passes (twap epoch hook + EndBlock batches run to completion) and queries: every ordered pair of a pool, start/end on, between, before and after record times, ...ToNow variants; oracle: the harness records the end-of-block spot price it obtains itself from the pool manager after every block; arithmetic TWAP == trunc18(sum p_i dt_i / dt) exactly; geometric TWAP == 2^(sum log2(p_i) dt_i / dt) within relative 2e-7 (the module rounds the result to 8 significant figures and derives one quote direction from the reciprocal of the other's 8-significant-figure spot prices); both within [min,max] of the prices in force; the two geometric quote directions multiply to 1 within 4e-7; a start before the first record fails cleanly; an interval in which a drained pool's missing price is in force must return an error flag (intervals touching only the creation block of a pool funded in that block may or may not be flagged); answers for intervals inside the retention window are identical before and after a complete pruning pass; non-trivial = interval spans >= 2 records with different prices and does not start on a record; distinct by history+query hash"
 
 type obs struct {
 	t time.Time
 	p map[string]*big.Int // "quote/base" -> spot price * 1e18 (truncated), as the module stores it
+	// mustErr: the pool had no spot price at the end of the block (drained): every interval in which this observation
+	// is in force must be flagged. mayErr: the pool was created without liquidity in this block and funded before its
+	// end: the module flags it (creation-time error), the end-of-block price is valid - either answer is accepted.
+	mustErr, mayErr bool
 }
 
 type pool struct {
-	id     uint64
-	denoms []string
-	obs    []obs
+	id      uint64
+	denoms  []string
+	obs     []obs
+	cl      bool
+	created time.Time
+}
+
+// errorsIn reports whether an observation with a spot-price error is in force somewhere in [s,e].
+func (p *pool) errorsIn(s, e time.Time) (must, may bool) {
+	for i, o := range p.obs {
+		if o.t.After(e) {
+			break
+		}
+		if i+1 < len(p.obs) && !p.obs[i+1].t.After(s) {
+			continue // replaced at or before s
+		}
+		must = must || o.mustErr
+		may = may || o.mayErr
+	}
+	return
 }
 
 var e18 = new(big.Int).Exp(big.NewInt(10), big.NewInt(18), nil)
@@ -91,7 +114,7 @@ func TestPropTwap(t *testing.T) {
 		tk := c.App.TwapKeeper
 		huge := int64(1 << 60)
 		for a := 0; a < 2; a++ {
-			c.Fund(chain.Actor(a), sdk.NewCoins(coin("uosmo", huge), coin("aaa", huge), coin("bbb", huge), coin("bbb2", huge)))
+			c.Fund(chain.Actor(a), sdk.NewCoins(coin("uosmo", huge), coin("aaa", huge), coin("bbb", huge), coin("bbb2", huge), coin("eth", huge), coin("usdc", huge)))
 		}
 		tkey := c.App.GetTKey(twaptypes.TransientStoreKey)
 		clearTransient := func() {
@@ -123,15 +146,72 @@ func TestPropTwap(t *testing.T) {
 		if rapid.Bool().Draw(rt, "secondPool") {
 			mkPool([]string{"aaa", "uosmo"})
 		}
+		var clPool *pool
+		clChanged := false
+		mkPosition := func(rt *rapid.T, a int) bool {
+			pl, err := c.App.ConcentratedLiquidityKeeper.GetConcentratedPoolById(c.Ctx, clPool.id)
+			if err != nil {
+				rt.Fatalf("harness: %v", err)
+			}
+			lo, hi := int64(cltypes.MinInitializedTick), cltypes.MaxTick
+			if pl.GetLiquidity().IsPositive() && rapid.Bool().Draw(rt, "narrow") {
+				cur := pl.GetCurrentTick() / 100
+				lo, hi = (cur-rapid.Int64Range(1, 500).Draw(rt, "below"))*100, (cur+rapid.Int64Range(1, 500).Draw(rt, "above"))*100
+			}
+			r := c.Exec(&cltypes.MsgCreatePosition{PoolId: clPool.id, Sender: chain.Actor(a).String(), LowerTick: lo, UpperTick: hi,
+				TokensProvided:  sdk.NewCoins(coin("eth", rapid.Int64Range(1_000_000, 1_000_000_000_000).Draw(rt, "eth")), coin("usdc", rapid.Int64Range(1_000_000, 1_000_000_000_000).Draw(rt, "usdc"))),
+				TokenMinAmount0: osmomath.ZeroInt(), TokenMinAmount1: osmomath.ZeroInt()})
+			// adding liquidity to a funded CL pool does not move its price and is not a price change for the twap module
+			if r.OK() && !pl.GetLiquidity().IsPositive() && pl.GetCurrentSqrtPrice().IsZero() {
+				clChanged = true
+			}
+			return r.OK()
+		}
+		if rapid.IntRange(0, 2).Draw(rt, "clPool") > 0 {
+			msg := clmodel.NewMsgCreateConcentratedPool(chain.Actor(0), "eth", "usdc", 100, osmomath.NewDecWithPrec(rapid.Int64Range(0, 3).Draw(rt, "clSpread"), 3))
+			if r := c.Exec(&msg); !r.OK() {
+				rt.Fatalf("harness: create CL pool: %v", r.Err)
+			}
+			clPool = &pool{id: c.App.PoolManagerKeeper.GetNextPoolId(c.Ctx) - 1, denoms: []string{"eth", "usdc"}, cl: true, created: c.Ctx.BlockTime()}
+			pools = append(pools, clPool)
+			// sometimes funded in its creation block, sometimes left empty for a while
+			if rapid.Bool().Draw(rt, "fundAtCreation") {
+				mkPosition(rt, 0)
+			}
+		}
 		observe := func() {
 			for _, p := range pools {
 				o := obs{t: c.Ctx.BlockTime(), p: map[string]*big.Int{}}
 				for _, pr := range p.pairs() {
 					sp, err := c.App.PoolManagerKeeper.RouteCalculateSpotPrice(c.Ctx, p.id, pr[0], pr[1])
 					if err != nil {
-						rt.Skip("spot price error (not generated on purpose)")
+						if !p.cl {
+							rt.Skip("spot price error of a balancer pool (not generated on purpose)")
+						}
+						o.mustErr = true
+						continue
 					}
 					o.p[pr[0]+"/"+pr[1]] = sp.Dec().BigInt()
+				}
+				// the module keeps flagging a record that was written in a block in which the pool had no price at some
+				// point (created empty and funded in the same block, or refilled after a drain) for as long as that
+				// record stays the latest one, i.e. until the pool changes again
+				if p.cl && !o.mustErr {
+					n := len(p.obs)
+					var prev *obs
+					if n > 0 && p.obs[n-1].t.Equal(o.t) && n > 1 {
+						prev = &p.obs[n-2]
+					} else if n > 0 && !p.obs[n-1].t.Equal(o.t) {
+						prev = &p.obs[n-1]
+					}
+					switch {
+					case o.t.Equal(p.created):
+						o.mayErr = true
+					case prev != nil && prev.mustErr && clChanged:
+						o.mayErr = true
+					case prev != nil && prev.mayErr && !clChanged:
+						o.mayErr = true
+					}
 				}
 				if n := len(p.obs); n > 0 && p.obs[n-1].t.Equal(o.t) {
 					p.obs[n-1] = o
@@ -143,6 +223,7 @@ func TestPropTwap(t *testing.T) {
 		endBlock := func(dt time.Duration) {
 			tk.EndBlock(c.Ctx)
 			observe()
+			clChanged = false
 			clearTransient()
 			c.Advance(dt)
 		}
@@ -150,6 +231,7 @@ func TestPropTwap(t *testing.T) {
 		endBlock(time.Duration(rapid.Int64Range(1, 5000).Draw(rt, "firstGapMs")) * time.Millisecond)
 		pruned := false
 		nontrivial := false
+		errChecked := false
 		keep := tk.RecordHistoryKeepPeriod(c.Ctx)
 
 		query := func(rt *rapid.T) {
@@ -199,8 +281,30 @@ func TestPropTwap(t *testing.T) {
 				cs.Class("start-before-first-record")
 				return
 			}
+			if must, may := p.errorsIn(s, e); must || may {
+				if must && (aerr == nil || gerr == nil) {
+					rt.Fatalf("TWAP(%d %s/%s, %s .. %s): the pool had no spot price during the interval but the answer is not flagged (arithmetic %v err=%v, geometric %v err=%v) [history %v]", p.id, base, quote, s.Sub(chain.Base), e.Sub(chain.Base), ar, aerr, ge, gerr, hist)
+				}
+				if must {
+					cs.Class("error-interval-flagged")
+					errChecked = true
+				} else {
+					cs.Class("creation-block-interval")
+				}
+				return
+			}
 			if aerr != nil || gerr != nil {
-				rt.Fatalf("TWAP(%d %s/%s, %s .. %s) failed: %v / %v [history %v]", p.id, base, quote, s.Sub(chain.Base), e.Sub(chain.Base), aerr, gerr, hist)
+				var fl []string
+				for _, o := range p.obs {
+					fl = append(fl, fmt.Sprintf("%s must=%v may=%v", o.t.Sub(chain.Base), o.mustErr, o.mayErr))
+				}
+				recs, _ := tk.GetAllHistoricalPoolIndexedTWAPsForPoolId(c.Ctx, p.id)
+				for _, r := range recs {
+					if r.PoolId == p.id {
+						fl = append(fl, fmt.Sprintf("REC t=%s lastErr=%s p0=%s p1=%s", r.Time.Sub(chain.Base), r.LastErrorTime.Sub(chain.Base), r.P0LastSpotPrice, r.P1LastSpotPrice))
+					}
+				}
+				rt.Fatalf("TWAP(%d %s/%s, %s .. %s) failed: %v / %v [history %v] [observations %v]", p.id, base, quote, s.Sub(chain.Base), e.Sub(chain.Base), aerr, gerr, hist, fl)
 			}
 			// reference
 			total := int64(0)
@@ -297,7 +401,40 @@ func TestPropTwap(t *testing.T) {
 				r := c.Exec(&pmtypes.MsgSwapExactAmountIn{Sender: chain.Actor(1).String(), Routes: []pmtypes.SwapAmountInRoute{{PoolId: p.id, TokenOutDenom: pr[1]}}, TokenIn: coin(pr[0], amt), TokenOutMinAmount: osmomath.OneInt()})
 				if r.OK() {
 					hist = append(hist, fmt.Sprintf("swap#%d %d%s->%s", p.id, amt, pr[0], pr[1]))
+					if p.cl {
+						clChanged = true
+					}
 				}
+			},
+			"clAdd": func(rt *rapid.T) {
+				if clPool == nil {
+					rt.Skip("no CL pool")
+				}
+				a := rapid.IntRange(0, 1).Draw(rt, "actor")
+				if mkPosition(rt, a) {
+					hist = append(hist, fmt.Sprintf("clAdd#%d a%d", clPool.id, a))
+				}
+			},
+			"clDrain": func(rt *rapid.T) {
+				if clPool == nil {
+					rt.Skip("no CL pool")
+				}
+				n := 0
+				for a := 0; a < 2; a++ {
+					ps, _ := c.App.ConcentratedLiquidityKeeper.GetUserPositions(c.Ctx, chain.Actor(a), clPool.id)
+					for _, pos := range ps {
+						if r := c.Exec(&cltypes.MsgWithdrawPosition{PositionId: pos.PositionId, Sender: chain.Actor(a).String(), LiquidityAmount: pos.Liquidity}); r.OK() {
+							n++
+						}
+					}
+				}
+				if n == 0 {
+					rt.Skip("nothing to drain")
+				}
+				if pl, err := c.App.ConcentratedLiquidityKeeper.GetConcentratedPoolById(c.Ctx, clPool.id); err == nil && pl.GetCurrentSqrtPrice().IsZero() {
+					clChanged = true // the last position left: the pool has no price any more
+				}
+				hist = append(hist, fmt.Sprintf("clDrain#%d (%d positions)", clPool.id, n))
 			},
 			"block": func(rt *rapid.T) {
 				var dt time.Duration
@@ -377,6 +514,9 @@ func TestPropTwap(t *testing.T) {
 		}
 		actions["block2"] = actions["block"]
 		rt.Repeat(actions)
+		if errChecked {
+			cs.Class("history-with-drained-pool-query")
+		}
 		if nontrivial {
 			cs.NonTrivial(strings.Join(hist, ";"))
 			cs.Sample(strings.Join(hist, "; "))
